@@ -503,7 +503,9 @@ def sweep_cases(tier):
     designs = ['d2'] if tier == 'quick' else ['d2', 'd3']
     for d in designs:
         for sk in sorted(SWEEP_KINDS):
-            for wall in ('none', 'flow'):
+            for wall in ('none', 'flow', 'no_flow', 'duct_average'):
+                if tier == 'quick' and wall in ('no_flow', 'duct_average') and sk not in ('r1', 'multi2'):
+                    continue
                 out.append({'sweep': sk, 'design': d, 'wall': wall,
                             'L': 0.06 if tier == 'quick' else 0.12})
     return out
@@ -523,6 +525,7 @@ def run_sweep(c):
     dftf_all = [ftf[i:i + 2] for i in range(0, len(ftf), 2)]
     extra = {'sweep_states_by_kind': {}, 'sweep_heated_states': 0}
     worst = {}
+    want_adi = (c['wall'] == 'none')
     with S.Built(scn) as b:
         rx = b.reactor()
         asm = rx.assemblies[0]
@@ -623,7 +626,9 @@ def run_sweep(c):
                 # rodded / simple: wall first, from level-n coolant and the
                 # film coefficients standing before the call
                 sn = pre
-            check(reg, sn, kT, tg, hg, q.get('duct') if reg.is_rodded else None, adiabatic, '')
+            # the outer boundary condition is the one the INPUT states (gap model none = adiabatic, every
+            # other gap model = coupled), not the flag the Reactor hands down
+            check(reg, sn, kT, tg, hg, q.get('duct') if reg.is_rodded else None, want_adi, '')
             r['transitions'] += 1
 
         def wrap_activate(reg):
@@ -649,7 +654,7 @@ def run_sweep(c):
                 nd = reg.temp['duct_mw'].shape[0]
                 if len(seen) != nd:       # low-fidelity adiabatic branch: no conduction solve, k immaterial
                     seen = [float(np.mean(reg.temp['coolant_int']))] * nd
-                check(reg, snapshot(reg), seen, tg, hg, None, adiabatic, '@activate')
+                check(reg, snapshot(reg), seen, tg, hg, None, want_adi, '@activate')
                 r['transitions'] += 1
             reg.activate = act
 
